@@ -29,10 +29,19 @@ Definition cm_log (outs : list (Z + Z)) : op nat (list Z) Z Z :=
              | None => (inr (-99), S k)
              end.
 
+(* set-typed populations: what an ordered set keeps of a list *)
+Fixpoint ins (x : Z) (l : list Z) : list Z :=
+  match l with [] => [x] | y :: r => if x <? y then x :: l else if x =? y then l else y :: ins x r end.
+Definition sort_dedup (l : list Z) : list Z := fold_right ins [] l.
+
 (* one step of one Generation value: the population before it, what was asked, what was observed *)
 Definition step_ok (mode0 : Z) (pop : list Z) (fail_at : Z) (res final_t lg_t : tree) : option (bool * bool * bool * list Z) :=
     (* mode 100 + T: scored individuals, child maker through GenomeScorer - judged exactly like mode T *)
-    let mode := if 100 <=? mode0 then mode0 - 100 else mode0 in
+    (* mode 200 + T: an ordered set as population (duplicate children collapse); mode 300 + T: a double-ended queue *)
+    let setmode := (200 <=? mode0) && (mode0 <? 300) in
+    let norm := if setmode then sort_dedup else (fun l => l) in
+    let mode := if 300 <=? mode0 then mode0 - 300 else if 200 <=? mode0 then mode0 - 200 else if 100 <=? mode0 then mode0 - 100 else mode0 in
+    let pop := norm pop in
     olet final := tlist tZ final_t in olet lg := tlist dec_entry lg_t in
     let n := length pop in
     let outs := map outcome lg in
@@ -45,14 +54,14 @@ Definition step_ok (mode0 : Z) (pop : list Z) (fail_at : Z) (res final_t lg_t : 
       saw_old && fresh &&
       match res with
       | L [A 0] =>
-        negb injected && Nat.eqb (length final) n && Nat.eqb (length lg) n && Nat.eqb (length children) n
+        negb injected && Nat.eqb (length final) (length (norm children)) && Nat.eqb (length lg) n && Nat.eqb (length children) n
         && (if mode =? 0
             then (* serial: exactly what the model computes from the same per-call behaviour *)
               match serial_next (cm_log outs) pop 0%nat with
-              | (inl cs, pop', k) => zl_eqb cs final && zl_eqb pop' final && Nat.eqb k (length lg)
+              | (inl cs, pop', k) => zl_eqb (norm cs) final && zl_eqb (norm pop') final && Nat.eqb k (length lg)
               | _ => false
               end
-            else perm_b final children)
+            else perm_b final (norm children))
       | L [A 1; A e] =>
         injected && zl_eqb final pop && existsb (Z.eqb e) errors && (e =? fail_at)
         && (if mode =? 0
